@@ -289,7 +289,11 @@ def check_joins_on(L, R, Lc, Rc, by, joins, rec, case=None):
     if case.get("poke") and nr >= 2 and len(rk) == 1 and not V.same_value(rc[rk[0]][0], rc[rk[0]][nr - 1]):
         # prime: the last thing done with R before the edit is a join against R itself (anything a join
         # remembers about its right-hand operand is stale afterwards)
-        getattr(L, "semi_join")(R, *[tuple(b) if isinstance(b, list) else b for b in by])
+        try:
+            getattr(L, "semi_join")(R, *[tuple(b) if isinstance(b, list) else b for b in by])
+        except Exception as e:
+            rec.violation("semi_join", "raised", {"L": Lc, "R": Rc, "by": by, "joins": ["semi_join"]}, f"{type(e).__name__}: {e}")
+            return
         col = R[rk[0]]
         col[0] = col[nr - 1]
         toks = list(Rc[0][2])
